@@ -531,8 +531,18 @@ def check_dict_fresh(ck, prog, rule="C03-DICTFRESH"):
         for b, i, e in f.iter_elems():
             if writes_pos(e):
                 posb.setdefault(b.id, []).append(i)
-        stores = [(b, i, nd) for b, i, e in f.iter_elems() for (l, r, op, nd) in ex.writes(e)
-                  if ex.show(l) == "dict->full" and r is not None and "dict->pos" in ex.show(r)]
+        def is_full_store(l, r):
+            return ex.show(l) == "dict->full" and r is not None and "dict->pos" in ex.show(r)
+        stores = [(b, i, nd) for b, i, e in f.iter_elems() for (l, r, op, nd) in ex.writes(e) if is_full_store(l, r)]
+        # ... or a call of a static helper that does it for the same `dict` (the three tails are identical and may be shared)
+        for b, i, e in f.iter_elems():
+            for c in ex.calls(e, into_refs=False):
+                if c.get("fn") and c["args"] and ex.show(c["args"][0]) == "dict":
+                    for cand in prog.functions.get(c["fn"], []):
+                        if cand.blocks and cand.static and cand.params and cand.params[0]["n"] == "dict" and any(
+                                is_full_store(l, r) for b2, i2, e2 in cand.iter_elems() for (l, r, op, nd) in ex.writes(e2)) \
+                                and not any(ex.show(l) == "dict->pos" for b2, i2, e2 in cand.iter_elems() for (l, r, op, nd) in ex.writes(e2)):
+                            stores.append((b, i, c))
         if not posb:
             raise AnalysisBroken("%s: no modification of dict->pos" % fn)
         if not stores:
